@@ -193,9 +193,9 @@ def applyBrowsingFlags (fl res : Nat) : Nat :=
   if hasFlag res NO_CACHE then setFlag fl NO_CACHE
   else if hasFlag res YES_CACHE then clrFlag fl NO_CACHE else fl
 
-/-- REGENERATED FACT (Gen/QdbFacts.lean, re-stated in Props): the guard of `freerec`.
-    `freerec` drops the in-memory copy of a NO_CACHE record only when the record is on disk
-    (`datpos != 0`). -/
+/-- `freerec` drops the in-memory copy of a NO_CACHE record only when the record is on disk
+    (`datpos != 0`). The shape of this guard is re-read from the source on every run
+    (Gen/QdbFacts.freerecChecksDatpos, restated by Props.C19.model_matches_source_facts). -/
 def freerec (r : Rec) : Rec :=
   if hasFlag r.flags NO_CACHE && r.pos != 0 then { r with data := none } else r
 
@@ -518,70 +518,74 @@ def close (db : DB) : DB :=
 /-- `int32(s0 - s1) >= 0` -/
 def seqNewerEq (s0 s1 : Nat) : Bool := (s0 + 2^32 - s1 % 2^32) % 2^32 < 2^31
 
-def loaddat (db : DB) : DB × List Nat :=
-  let c0 := checkIdxFile db.fs.idx0
-  let c1 := checkIdxFile db.fs.idx1
-  let pick : Option (DB × Bytes) :=
-    match c0, c1 with
-    | none, none => none
-    | some (s0, d0), some (s1, d1) =>
-      if seqNewerEq s0 s1 then
-        some ({ emit db "qdb.loadneweridx:removed" (.removeIdx 1) with datIdx := 0, verSeq := s0 }, d0)
-      else
-        some ({ emit db "qdb.loadneweridx:removed" (.removeIdx 0) with datIdx := 1, verSeq := s1 }, d1)
-    | none, some (s1, d1) =>
-      some ({ emit db "qdb.loadneweridx:removed" (.removeIdx 0) with datIdx := 1, verSeq := s1 }, d1)
-    | some (s0, d0), none =>
-      some ({ emit db "qdb.loadneweridx:removed" (.removeIdx 1) with datIdx := 0, verSeq := s0 }, d0)
-  match pick with
-  | none => (db, [])
-  | some (db, d) =>
-    let recs := snapshotRecs d
-    (recs.foldl (fun db kr => memput db kr.1 kr.2) db, recs.map (·.2.seq))
+/-- `loadneweridx`: which snapshot is used — (DatfileIndex, VersionSequence, content); the other file is removed -/
+def pickIdx (fs : FS) : Option (Nat × Nat × Bytes) :=
+  match checkIdxFile fs.idx0, checkIdxFile fs.idx1 with
+  | none, none => none
+  | some (s0, d0), some (s1, d1) => if seqNewerEq s0 s1 then some (0, s0, d0) else some (1, s1, d1)
+  | none, some (s1, d1) => some (1, s1, d1)
+  | some (s0, d0), none => some (0, s0, d0)
 
-/-- REGENERATED FACT (Gen/QdbFacts.lean): `loadlog` rejects a log whose 4-byte header cannot be read
-    (`logHeaderErrRejected`), not only one whose sequence differs. -/
+def memputAll (db : DB) (recs : List (Key × Rec)) : DB := recs.foldl (fun db kr => memput db kr.1 kr.2) db
+
+def loaddat (db : DB) : DB × List Nat :=
+  match pickIdx db.fs with
+  | none => (db, [])
+  | some (i, s, d) =>
+    (memputAll { emit db "qdb.loadneweridx:removed" (.removeIdx (1 - i)) with datIdx := i, verSeq := s } (snapshotRecs d),
+     (snapshotRecs d).map (·.2.seq))
+
+def applyEntry (db : DB) : LogEntry → DB
+  | .put k r => memput db k r
+  | .del k => memdel db k
+
+def applyLog (db : DB) (es : List LogEntry) : DB := es.foldl applyEntry db
+
+def logSeqs (es : List LogEntry) : List Nat :=
+  es.filterMap fun e => match e with | .put _ r => some r.seq | .del _ => none
+
+/-- the header check of `loadlog`: `none` = the log is discarded. A log whose 4-byte header cannot be read
+    is discarded too (`er != nil`; re-read from the source: Gen/QdbFacts.loadlogRejectsHeaderError). -/
+def logBody (f : Bytes) (ver : Nat) : Option Bytes :=
+  if f.length < 4 ∨ leVal (f.take 4) ≠ ver then none else some (f.drop 4)
+
 def loadlog (db : DB) (used : List Nat) : DB × List Nat :=
   match db.fs.log with
   | none => (db, used)
   | some f =>
-    let short := f.length < 4
-    let iseq := if short then 0 else leVal (f.take 4)
-    if short ∨ iseq ≠ db.verSeq then
-      (emit db "qdb.loadlog:removed" .removeLog, used)
-    else
-      let es := parseLog (f.length) (f.drop 4)
-      let db := es.foldl (fun db e => match e with
-        | .put k r => memput db k r
-        | .del k => memdel db k) db
-      ({ db with logOpen := true },
-       used ++ es.filterMap (fun e => match e with | .put _ r => some r.seq | .del _ => none))
+    match logBody f db.verSeq with
+    | none => (emit db "qdb.loadlog:removed" .removeLog, used)
+    | some body =>
+      ({ applyLog db (parseLog body.length body) with logOpen := true }, used ++ logSeqs (parseLog body.length body))
 
-/-- `QdbIndex.load(nil)`: read the data of every record that is not NO_CACHE -/
+/-- `QdbIndex.load(nil)` for one record: read the data of a record that is not NO_CACHE -/
+def loadOne (st : DB × List (Key × Rec)) (kr : Key × Rec) : DB × List (Key × Rec) :=
+  match st.1.failed with
+  | some _ => st
+  | none =>
+    if hasFlag kr.2.flags NO_CACHE then (st.1, st.2 ++ [kr])
+    else match dlookup kr.2.seq st.1.fs.dats with
+      | none => (fail st.1 "exit", st.2)                       -- "Database corrupt - missing file"
+      | some f =>
+        if u32 (kr.2.pos + kr.2.len) < kr.2.pos ∨ u32 (kr.2.pos + kr.2.len) > f.length then
+          (fail st.1 "panic", st.2)                            -- slice bounds out of range
+        else (st.1, st.2 ++ [(kr.1, { kr.2 with data := some ((f.drop kr.2.pos).take kr.2.len) })])
+
 def loadAll (db : DB) : DB :=
-  let (db', idx) := db.index.foldl (fun (st : DB × List (Key × Rec)) kr =>
-    let (db, acc) := st
-    match db.failed with
-    | some _ => st
-    | none =>
-      if hasFlag kr.2.flags NO_CACHE then (db, acc ++ [kr])
-      else match dlookup kr.2.seq db.fs.dats with
-        | none => (fail db "exit", acc)                       -- "Database corrupt - missing file"
-        | some f =>
-          if u32 (kr.2.pos + kr.2.len) < kr.2.pos ∨ u32 (kr.2.pos + kr.2.len) > f.length then
-            (fail db "panic", acc)                            -- slice bounds out of range
-          else (db, acc ++ [(kr.1, { kr.2 with data := some ((f.drop kr.2.pos).take kr.2.len) })]))
-    (db, [])
-  match db'.failed with
-  | some _ => db'
-  | none => { db' with index := idx }
+  let st := db.index.foldl loadOne (db, [])
+  match st.1.failed with
+  | some _ => st.1
+  | none => { st.1 with index := st.2 }
+
+/-- `NewDBidx`: loaddat, loadlog, cleanupold (db.DataSeq is still 0 here) -/
+def openIndex (db : DB) : DB :=
+  let a := loaddat db
+  let b := loadlog a.1 a.2
+  cleanupold b.1 b.2
 
 /-- `NewDBExt` on the directory `fs` -/
 def openDB (fs : FS) (volatile load : Bool) (opts : Opts) : DB :=
-  let db : DB := { fs := fs, volatile := volatile, opts := opts }
-  let (db, used) := loaddat db
-  let (db, used) := loadlog db used
-  let db := cleanupold db used            -- db.DataSeq is still 0 here
+  let db := openIndex { fs := fs, volatile := volatile, opts := opts }
   let db := if load then loadAll db else db
   { db with dataSeq := u32 (db.maxSeq + 1) }
 
